@@ -572,7 +572,7 @@ async fn drive(case: &Case, det: bool, selftest_hang: bool, rng_seed: u64) -> Ou
         );
         ctx.obs("main", &svc.state());
         // wall-clock watchdog: its firing is *inconclusive*, never a violation
-        let joined = tokio::time::timeout(Duration::from_secs(20), async {
+        let joined = tokio::time::timeout(Duration::from_secs(10), async {
             for h in handles.iter_mut() {
                 let _ = h.await;
             }
@@ -1100,7 +1100,7 @@ fn account(
     }
     if report.wants_sample() && started && failed {
         report.sample(json!({"mode": mode, "case": case_json(case), "events": events.len(),
-            "history_head": evs.iter().take(40).map(|e| format!("{} {} {}{}{}", u(e,"t"), s(e,"kind"), s(e,"who"), s(e,"op"), s(e,"s"))).collect::<Vec<_>>() }));
+            "history_head": evs.iter().take(40).map(|e| format!("{} {} {} {}{}{}", u(e,"t"), s(e,"kind"), s(e,"who"), s(e,"op"), s(e,"s"), s(e,"out"))).collect::<Vec<_>>() }));
     }
     let mut seen = HashSet::new();
     for (sig, detail) in violations {
@@ -1218,6 +1218,7 @@ fn c41(args: &Args, report: &Report) {
                     .enable_time()
                     .build()
                     .expect("rt");
+                let mut watchdogs = 0u32;
                 for it in 0..stress_cases {
                     let mut rng = rng_for(shard_seed, &[0, it]);
                     let case = gen_case(&mut rng, false, allow_probe);
@@ -1232,7 +1233,17 @@ fn c41(args: &Args, report: &Report) {
                         })
                     });
                     match res {
-                        Ok(Ok(out)) => account(&report, &shared, &args2, &case, &out, false, shard, shard_seed, it, selftest),
+                        Ok(Ok(out)) => {
+                            if out.watchdog {
+                                watchdogs += 1;
+                            }
+                            account(&report, &shared, &args2, &case, &out, false, shard, shard_seed, it, selftest);
+                            if watchdogs >= 2 {
+                                // do not spend the whole budget waiting for hung cases
+                                report.count("stress.shards_aborted_after_watchdogs");
+                                break;
+                            }
+                        }
                         Ok(Err(e)) => report.inconclusive(format!("stress case join error: {e}")),
                         Err(p) => report.inconclusive(format!("stress case panicked in harness: {p}")),
                     }
@@ -1283,7 +1294,7 @@ fn main() {
         took part); the key is (case, mode, observed interleaving signature = hash of the ordered event kinds).";
     let assumptions = [
         "scripted hooks always return in bounded virtual time (no hook ignores the stop signal forever)",
-        "liveness (every await-for-stop resolves) is judged only in deterministic paused-time mode: stop requested, all hooks returned, 1 h of virtual time elapsed with all tasks idle; in stress mode a 20 s wall watchdog only yields 'inconclusive'",
+        "liveness (every await-for-stop resolves) is judged only in deterministic paused-time mode: stop requested, all hooks returned, 1 h of virtual time elapsed with all tasks idle; in stress mode a 10 s wall watchdog only yields 'inconclusive'",
         "state monotonicity across different observers in stress mode is judged only for reads ordered by the shared logical clock (read A logged before observer B's previous event)",
     ];
     // outer wall-clock watchdog: firing is inconclusive
